@@ -207,7 +207,7 @@ def Ctx.opSubMe (c : Ctx) (a : Actor) : Ctx :=
         if !ok then (c.emit a.sid (ctrl 500 tn), none) else
         let t := t.setPud a.uid { want := want, given := given }
         -- notifySubChange on `me`: a subscription which comes with presence is announced ("on+en") to the contacts known so far
-        let (c, t) := if isPresencer (want &&& given) then c.presUsersOfInterest t "on+en" else (c, t)
+        let (c, t) := if hearsPres (want &&& given) then c.presUsersOfInterest t "on+en" else (c, t)
         (c, some (t, some (want, given)))
     match r with
     | (c, none) => c
